@@ -8,7 +8,8 @@ it.  An undecided case is never a violation by itself.  This program searches fo
 input of that case natively: it rebuilds the case with real torch tensors for a fixed panel of
 numeric assignments of the symbols and compares the real code from <repo_root> with the same
 dense specification.  The panel puts the boundary values a value-dependent decision is likely to
-test first: every angle 0 / pi / -pi / 2 pi / pi/2, mixed multiples of pi, every real 0 / 1 / -1,
+test first: every angle pi / -pi / 2 pi / pi/2 (never the literal 0.0: an angle symbol stands for a
+NON-ZERO phase, the literal-zero pattern is a separate case of the harness), mixed multiples of pi, every real 0 / 1 / -1,
 reals of alternating or random sign and equal magnitude (cancelling sums), then seeded generic values.  It is a bounded search (PANEL assignments), labelled as such.
 
 Prints REPRODUCED and exits 1 at the first assignment where the real code disagrees with the
@@ -26,13 +27,12 @@ import sys
 def panels(seed):
     pi = math.pi
     out = []
-    for a in (pi, 0.0, -pi, 2 * pi, 3 * pi, pi / 2, -pi / 2):
+    for a in (pi, -pi, 2 * pi, 3 * pi, pi / 2, -pi / 2):
         out.append(("all angles %.4g, generic reals" % a, lambda i, r, a=a: a, None))
-    out.append(("angles alternate pi / 0", lambda i, r: (pi, 0.0)[i % 2], None))
-    out.append(("angles alternate 0 / pi", lambda i, r: (0.0, pi)[i % 2], None))
+    out.append(("angles alternate 2pi / pi", lambda i, r: (2 * pi, pi)[i % 2], None))
     out.append(("angles alternate pi / 2pi", lambda i, r: (pi, 2 * pi)[i % 2], None))
-    out.append(("angles random multiples of pi", lambda i, r: pi * r.randint(-3, 3), None))
-    out.append(("angles random multiples of pi/2", lambda i, r: pi / 2 * r.randint(-4, 4), None))
+    out.append(("angles random multiples of pi", lambda i, r: pi * r.choice((-3, -2, -1, 1, 2, 3)), None))
+    out.append(("angles random multiples of pi/2", lambda i, r: pi / 2 * r.choice((-4, -3, -2, -1, 1, 2, 3, 4)), None))
     for v in (0.0, 1.0, -1.0):
         out.append(("generic angles, all reals %g" % v, None, lambda i, r, v=v: v))
     out.append(("generic angles, reals alternate 1 / -1", None, lambda i, r: (1.0, -1.0)[i % 2]))
